@@ -335,6 +335,25 @@ func hostileBytes(seed uint64, side string, items []HRec, b *built, p *ScriptPla
 			out = append(out, shRecord(seed, i)...)
 		case "hrr":
 			out = append(out, hrrRecord(core.Mix(seed, "hrr", i))...)
+		case "shedge":
+			// a well-framed ServerHello (or HelloRetryRequest) whose extensions
+			// have degenerate bodies
+			rr := core.NewRand(seed, "shedge", i)
+			random := core.Bytes(rr, 32)
+			if it.A%3 == 0 {
+				random = echbox.HRRRandom
+			}
+			edge := [][]byte{nil, {3}, {3, 4, 0}, {0}, {0, 29}, {0, 29, 0}, {0, 29, 0, 32}, {255, 255}}
+			exts := []echbox.Ext{{Type: 43, Data: edge[it.A%3]}, {Type: 51, Data: edge[3+(it.A/3)%5]}}
+			switch (it.A / 15) % 4 {
+			case 1:
+				exts = exts[:1]
+			case 2:
+				exts = exts[1:]
+			case 3:
+				exts = append(exts, echbox.Ext{Type: 44, Data: nil}, echbox.Ext{Type: 0xfe0d, Data: []byte{1, 2, 3}})
+			}
+			out = append(out, echbox.ServerHello(random, core.Bytes(rr, []int{0, 32, 1}[(it.A/60)%3]), 0x1301, exts)...)
 		case "shmut":
 			base := shRecord(seed, i)
 			if it.A%2 == 0 {
@@ -523,7 +542,7 @@ func genHRecs(r *rand.Rand, side string) []HRec {
 			out = append(out, HRec{Kind: "raw", Raw: core.Bytes(r, r.IntN(40))})
 		case 1:
 			if side == "b" {
-				out = append(out, HRec{Kind: []string{"sh", "hrr", "shmut"}[r.IntN(3)], A: r.IntN(1000)})
+				out = append(out, HRec{Kind: []string{"sh", "hrr", "shmut", "shedge", "shedge"}[r.IntN(5)], A: r.IntN(1000)})
 			} else {
 				out = append(out, HRec{Kind: []string{"hello2", "hellomut"}[r.IntN(2)], A: r.IntN(1000)})
 			}
